@@ -279,3 +279,491 @@ Proof.
       unfold a1 in Hi'. unfold a2 in Hj'. rewrite argsort_length in Hi', Hj'.
       exists (i', j'). simpl. split; [congruence|]. apply Hm. repeat split; auto. congruence.
 Qed.
+
+(* ------------------------------------------------------------------ more on broadcast shapes *)
+
+Lemma BT_ext s T : BT s T -> forall k, (k < length s)%nat -> ext_from_end s k = ext_from_end T k \/ ext_from_end s k = 1.
+Proof.
+  induction 1 as [|s d cur HB IH|e s d cur Hl He HB IH]; intros k Hk; simpl in Hk; [lia| |].
+  - pose proof (BT_length _ _ HB). rewrite ext_cons_lt by lia. apply IH. exact Hk.
+  - destruct (Nat.eq_dec k (length s)) as [->|Hne].
+    + rewrite ext_cons_eq. rewrite Hl, ext_cons_eq. exact He.
+    + rewrite !ext_cons_lt by lia. apply IH. lia.
+Qed.
+
+(* two shapes that broadcast into T have a broadcast, which again broadcasts into T *)
+Lemma bc_exists s1 s2 T : BT s1 T -> BT s2 T ->
+  exists cur, broadcast_shape2 false s1 s2 = Ok cur /\ BT cur T.
+Proof.
+  intros H1 H2. rewrite broadcast_shape2_unfold.
+  assert (Hok : bc_ok false s1 s2 = true).
+  { apply bc_ok_false_spec. intros k K1 K2. destruct (BT_ext _ _ H1 k K1); destruct (BT_ext _ _ H2 k K2); auto.
+    left. congruence. }
+  rewrite Hok. exists (bc_res s1 s2). split; [reflexivity|]. apply BT_intro.
+  - rewrite bc_res_length. pose proof (BT_length _ _ H1). pose proof (BT_length _ _ H2). lia.
+  - intros k Hk. rewrite bc_res_length in Hk. rewrite bc_res_ext.
+    destruct (Z.eqb_spec (ext_from_end s1 k) 1) as [E|E].
+    + destruct (Nat.lt_ge_cases k (length s2)) as [K|K]; [apply (BT_ext _ _ H2 k K)|].
+      right. apply ext_beyond. exact K.
+    + destruct (Nat.lt_ge_cases k (length s1)) as [K|K]; [apply (BT_ext _ _ H1 k K)|].
+      rewrite ext_beyond in E by exact K. contradiction.
+Qed.
+
+Lemma bc_into s T : BT s T -> broadcast_shape2 false T s = Ok T.
+Proof.
+  intros H. rewrite broadcast_shape2_unfold.
+  assert (Hok : bc_ok false T s = true).
+  { apply bc_ok_false_spec. intros k K1 K2. destruct (BT_ext _ _ H k K2); auto. }
+  rewrite Hok. f_equal. apply list_eq_ext_from_end.
+  - rewrite bc_res_length. pose proof (BT_length _ _ H). lia.
+  - intros k. rewrite bc_res_ext. destruct (Z.eqb_spec (ext_from_end T k) 1) as [E|E]; [|reflexivity].
+    destruct (Nat.lt_ge_cases k (length s)) as [K|K].
+    + destruct (BT_ext _ _ H k K); congruence.
+    + rewrite E. apply ext_beyond. exact K.
+Qed.
+
+(* ------------------------------------------------------------------ match_pairs *)
+
+Lemma nthZ_map_fn {A} (g : A -> Z) (l : list A) (d : A) i : (i < length l)%nat -> nthZ (map g l) i = g (nth i l d).
+Proof.
+  intros H. unfold nthZ. rewrite (nth_indep _ 0 (g d)) by (rewrite map_length; exact H). apply map_nth.
+Qed.
+
+Lemma match_pairs_spec sh1 c1 sh2 c2 cur :
+  broadcast_shape2 false sh1 sh2 = Ok cur ->
+  Forall (in_range sh1) c1 -> Forall (in_range sh2) c2 ->
+  exists pairs,
+    match_pairs sh1 c1 sh2 c2 = Ok (cur, bcast_params sh1 cur, bcast_params sh2 cur, pairs) /\
+    NoDup pairs /\
+    forall i j, In (i, j) pairs <->
+                (i < length c1)%nat /\ (j < length c2)%nat /\
+                select (msk1 sh1 sh2 cur) (nth i c1 []) = select (msk2 sh1 sh2 cur) (nth j c2 []).
+Proof.
+  intros Hb R1 R2. pose proof (broadcast_shape2_BT2 _ _ _ Hb) as HB.
+  unfold match_pairs. rewrite Hb. cbn [bind].
+  fold (rparams sh1 sh2 cur). fold (msk1 sh1 sh2 cur). fold (msk2 sh1 sh2 cur).
+  set (rsh := select (msk2 sh1 sh2 cur) sh2).
+  set (k1 := map (fun t => ravel rsh (select (msk1 sh1 sh2 cur) t)) c1).
+  set (k2 := map (fun t => ravel rsh (select (msk2 sh1 sh2 cur) t)) c2).
+  exists (joined k1 k2). split; [reflexivity|]. destruct (joined_spec k1 k2) as [Hnd Hin]. split; [exact Hnd|].
+  intros i j. rewrite Hin. unfold k1, k2. rewrite !map_length.
+  rewrite Forall_forall in R1, R2.
+  split; intros [H1 [H2 H3]]; repeat split; auto.
+  - rewrite (nthZ_map_fn _ c1 [] i H1), (nthZ_map_fn _ c2 [] j H2) in H3.
+    destruct (pair_align _ _ _ HB (nth i c1 []) (nth j c2 []) (R1 _ (nth_In _ _ H1)) (R2 _ (nth_In _ _ H2)))
+      as [_ [P1 [P2 _]]].
+    apply (ravel_inj rsh); assumption.
+  - rewrite (nthZ_map_fn _ c1 [] i H1), (nthZ_map_fn _ c2 [] j H2). congruence.
+Qed.
+
+Lemma mapM_Ok {A B} (f : A -> res B) (d : B) (l : list A) :
+  (forall x, In x l -> exists y, f x = Ok y) ->
+  mapM f l = Ok (map (fun x => match f x with Ok y => y | Raise _ => d end) l).
+Proof.
+  induction l as [|a l IH]; intros H; simpl; [reflexivity|].
+  destruct (H a (or_introl eq_refl)) as [y Hy]. rewrite Hy. cbn [bind]. rewrite IH by (intros; apply H; simpl; auto).
+  reflexivity.
+Qed.
+
+(* ================================================================== _match_coo as a join *)
+
+Section General.
+  Variable V : Type.
+  Variable veqb : V -> V -> bool.
+  Variable vzero : V.
+  Variable f : list V -> V.
+  Hypothesis veqb_eq : forall a b, veqb a b = true <-> a = b.
+
+  Definition stored (c : coo V) (q : idx) : Prop := In (bcast_idx (c_shape c) q) (c_coords c).
+  Definition val_at (c : coo V) (q : idx) : V := den c (bcast_idx (c_shape c) q).
+
+  (* rows = one row per position q of T at which EVERY matched operand stores its pre-image, carrying
+     the operands' values there; no position twice *)
+  Definition rows_spec (ms : list (coo V)) (T : shape) (rows : list (idx * list V)) : Prop :=
+    NoDup (map fst rows) /\
+    forall q vs, In (q, vs) rows <-> in_range T q /\ Forall (fun c => stored c q) ms /\ vs = map (fun c => val_at c q) ms.
+
+  Lemma stored_trans (c : coo V) B T q : BT (c_shape c) B -> BT B T -> in_range T q ->
+    (stored c (bcast_idx B q) <-> stored c q) /\ val_at c (bcast_idx B q) = val_at c q.
+  Proof.
+    intros H1 H2 Hq. unfold stored, val_at. rewrite (bcast_idx_trans _ _ _ H1 H2 q Hq). tauto.
+  Qed.
+
+  Lemma nth_entries (c : coo V) j :
+    canonical V c -> (j < length (c_coords c))%nat -> nth j (c_data c) vzero = den c (nth j (c_coords c) []).
+  Proof.
+    intros Hc Hj. symmetry. apply (den_stored V c _ _ Hc). destruct Hc as [_ [_ Hl]].
+    apply (entries_nth V vzero); [exact Hl|]. exists j. auto.
+  Qed.
+
+  Lemma match_step_spec ms B rows (a2 : coo V) cur :
+    rows_spec ms B rows -> canonical V a2 -> Forall (fun c => BT (c_shape c) B) ms ->
+    broadcast_shape2 false B (c_shape a2) = Ok cur ->
+    exists rows', match_step V vzero (B, rows) a2 = Ok (cur, rows') /\ rows_spec (ms ++ [a2]) cur rows'.
+  Proof.
+    intros [Hnd Hrows] Ha2 Hms Hb. pose proof (broadcast_shape2_BT2 _ _ _ Hb) as HB.
+    pose proof (BT2_left_BT _ _ _ HB) as HB1. pose proof (BT2_right_BT _ _ _ HB) as HB2.
+    pose proof Ha2 as [R2 [S2 L2]].
+    assert (R1 : Forall (in_range B) (map fst rows)).
+    { apply Forall_forall. intros q Hq. apply in_map_iff in Hq. destruct Hq as [[q' vs] [<- Hin]].
+      apply Hrows in Hin. tauto. }
+    destruct (match_pairs_spec B (map fst rows) (c_shape a2) (c_coords a2) cur Hb R1 R2) as [pairs [Hmp [Pnd Pin]]].
+    unfold match_step. rewrite Hmp. cbn [bind]. unfold idx in *.
+    set (g := fun ij : nat * nat =>
+                let r1 := nth (fst ij) rows ([], []) in
+                mc <- matching_coords (bcast_params B cur) (bcast_params (c_shape a2) cur)
+                                      (fst r1) (nth (snd ij) (c_coords a2) []) ;;
+                Ok (mc, snd r1 ++ [nth (snd ij) (c_data a2) vzero])).
+    (* every pair reconstructs a position of cur *)
+    assert (Hg : forall i j, In (i, j) pairs ->
+               exists q, g (i, j) = Ok (q, snd (nth i rows ([], [])) ++ [nth j (c_data a2) vzero]) /\
+                         in_range cur q /\ bcast_idx B q = fst (nth i rows ([], [])) /\
+                         bcast_idx (c_shape a2) q = nth j (c_coords a2) []).
+    { intros i j Hij. apply Pin in Hij. rewrite map_length in Hij. destruct Hij as [Hi [Hj Esel]].
+      change (@nil Z) with (fst (@nil Z, @nil V)) in Esel at 1. rewrite map_nth in Esel.
+      rewrite Forall_forall in R1, R2.
+      assert (I1 : in_range B (fst (nth i rows ([], [])))) by (apply R1, in_map, nth_In; exact Hi).
+      assert (I2 : in_range (c_shape a2) (nth j (c_coords a2) [])) by (apply R2, nth_In; exact Hj).
+      destruct (pair_align _ _ _ HB _ _ I1 I2) as [_ [_ [_ P]]]. destruct (P Esel) as [q [Q1 [Q2 [Q3 Q4]]]].
+      exists q. unfold g. simpl. rewrite Q1. cbn [bind]. auto. }
+    rewrite (mapM_Ok g ([], [])).
+    2:{ intros [i j] Hij. destruct (Hg i j Hij) as [q [E _]]. eauto. }
+    cbn [bind]. eexists. split; [reflexivity|].
+    set (h := fun x => match g x with Ok y => y | Raise _ => ([], []) end).
+    assert (Hh : forall i j, In (i, j) pairs ->
+               exists q, h (i, j) = (q, snd (nth i rows ([], [])) ++ [nth j (c_data a2) vzero]) /\
+                         in_range cur q /\ bcast_idx B q = fst (nth i rows ([], [])) /\
+                         bcast_idx (c_shape a2) q = nth j (c_coords a2) []).
+    { intros i j Hij. destruct (Hg i j Hij) as [q [E Q]]. exists q. unfold h. rewrite E. auto. }
+    split.
+    - (* no position twice *)
+      rewrite map_map. apply NoDup_map_in; [|exact Pnd].
+      intros [i j] [i' j'] Hx Hy E.
+      destruct (Hh i j Hx) as [q [E1 [_ [Q3 Q4]]]]. destruct (Hh i' j' Hy) as [q' [E1' [_ [Q3' Q4']]]].
+      rewrite E1, E1' in E. simpl in E. subst q'.
+      apply Pin in Hx. apply Pin in Hy. rewrite map_length in Hx, Hy.
+      destruct Hx as [Hi [Hj _]]. destruct Hy as [Hi' [Hj' _]].
+      assert (i = i').
+      { apply (proj1 (NoDup_nth (map fst rows) []) Hnd); try (rewrite map_length; assumption).
+        change (@nil Z) with (fst (@nil Z, @nil V)). rewrite !map_nth.
+        transitivity (bcast_idx B q); [symmetry; exact Q3|exact Q3']. }
+      assert (j = j').
+      { apply (proj1 (NoDup_nth (c_coords a2) []) (SS_lex_NoDup _ S2)); auto.
+        transitivity (bcast_idx (c_shape a2) q); [symmetry; exact Q4|exact Q4']. }
+      congruence.
+    - intros q vs. rewrite in_map_iff. split.
+      + intros [[i j] [E Hij]]. destruct (Hh i j Hij) as [q' [E1 [Q2 [Q3 Q4]]]]. rewrite E1 in E.
+        inversion E; subst q' vs. clear E.
+        apply Pin in Hij. rewrite map_length in Hij. destruct Hij as [Hi [Hj _]].
+        assert (Hrow : In (nth i rows ([], [])) rows) by (apply nth_In; exact Hi).
+        destruct (nth i rows ([], [])) as [q1 vs1] eqn:En. simpl in *. apply Hrows in Hrow.
+        destruct Hrow as [_ [Hst Hvs]]. split; [exact Q2|]. split.
+        * apply Forall_app. split.
+          -- rewrite Forall_forall in Hst, Hms |- *. intros c Hc. subst q1.
+             apply (stored_trans c B cur q (Hms c Hc) HB1 Q2). apply Hst. exact Hc.
+          -- constructor; [|constructor]. unfold stored. rewrite Q4. apply nth_In. exact Hj.
+        * rewrite map_app. simpl. f_equal.
+          -- rewrite Hvs. apply map_ext_in. intros c Hc. rewrite Forall_forall in Hms. subst q1.
+             apply (stored_trans c B cur q (Hms c Hc) HB1 Q2).
+          -- f_equal. unfold val_at. rewrite Q4. apply nth_entries; assumption.
+      + intros [Hq [Hst Hvs]]. apply Forall_app in Hst. destruct Hst as [Hst1 Hst2].
+        inversion Hst2 as [|? ? Hs2 _]; subst.
+        (* the row of the first operands *)
+        assert (Hrow : In (bcast_idx B q, map (fun c => val_at c q) ms) rows).
+        { apply Hrows. split; [eapply bcast_in_range; eauto|]. split.
+          - rewrite Forall_forall in Hst1, Hms |- *. intros c Hc.
+            apply (stored_trans c B cur q (Hms c Hc) HB1 Hq). apply Hst1. exact Hc.
+          - apply map_ext_in. intros c Hc. rewrite Forall_forall in Hms. symmetry.
+            apply (stored_trans c B cur q (Hms c Hc) HB1 Hq). }
+        apply (In_nth _ _ ([], [])) in Hrow. destruct Hrow as [i [Hi Ei]].
+        unfold stored in Hs2. apply (In_nth _ _ []) in Hs2. destruct Hs2 as [j [Hj Ej]].
+        destruct (pair_align_inv _ _ _ HB q Hq) as [Esel Emc].
+        assert (Hij : In (i, j) pairs).
+        { apply Pin. rewrite map_length. repeat split; auto.
+          change (@nil Z) with (fst (@nil Z, @nil V)) at 1. rewrite map_nth, Ei, Ej. exact Esel. }
+        exists (i, j). split; [|exact Hij]. unfold h, g. simpl. unfold idx in *. rewrite Ei, Ej. simpl. rewrite Emc. cbn [bind].
+        f_equal. rewrite map_app. simpl. f_equal. f_equal. unfold val_at. rewrite <- Ej. apply nth_entries; assumption.
+  Qed.
+
+  Lemma combine_map_r {A B C} (g : B -> C) (l : list A) (l' : list B) :
+    combine l (map g l') = map (fun p => (fst p, g (snd p))) (combine l l').
+  Proof. revert l'. induction l as [|a l IH]; intros [|b l']; simpl; auto. rewrite IH. reflexivity. Qed.
+
+  Lemma rows_spec_init (a1 : coo V) :
+    canonical V a1 -> rows_spec [a1] (c_shape a1) (combine (c_coords a1) (map (fun v => [v]) (c_data a1))).
+  Proof.
+    intros Hc. pose proof Hc as [R [Srt L]]. rewrite combine_map_r. fold (entries a1). split.
+    - rewrite map_map. simpl. unfold entries. rewrite combine_map_fst by (symmetry; exact L).
+      apply SS_lex_NoDup. exact Srt.
+    - intros q vs. rewrite in_map_iff. rewrite Forall_forall in R. split.
+      + intros [[q' v] [E Hin]]. simpl in E. inversion E; subst q' vs. clear E.
+        assert (Hq : In q (c_coords a1)) by (eapply in_combine_l; eauto).
+        pose proof (R q Hq) as Rq. split; [exact Rq|]. split.
+        * constructor; [|constructor]. unfold stored. rewrite bcast_idx_id by exact Rq. exact Hq.
+        * simpl. unfold val_at. rewrite bcast_idx_id by exact Rq. rewrite (den_stored V a1 q v Hc Hin). reflexivity.
+      + intros [Hq [Hst Hvs]]. inversion Hst as [|? ? Hs _]; subst. unfold stored in Hs.
+        rewrite bcast_idx_id in Hs by exact Hq. simpl. unfold val_at. rewrite bcast_idx_id by exact Hq.
+        apply (entries_coords V vzero a1 q L) in Hs. destruct Hs as [v Hv].
+        exists (q, v). simpl. split; [|exact Hv]. rewrite (den_stored V a1 q v Hc Hv). reflexivity.
+  Qed.
+
+  Lemma rows_spec_expand ms B T rows :
+    rows_spec ms B rows -> Forall (fun c => BT (c_shape c) B) ms -> BT B T -> shape_ok T ->
+    rows_spec ms T (expand_rows rows (bcast_params B T) T).
+  Proof.
+    intros [Hnd Hrows] Hms HB Hok.
+    assert (Hr : Forall (fun r : idx * list V => in_range B (fst r)) rows).
+    { apply Forall_forall. intros [q vs] Hin. apply Hrows in Hin. simpl. tauto. }
+    destruct (expand_rows_spec B T rows HB Hok Hr Hnd) as [End Ein]. split; [exact End|].
+    intros q vs. rewrite Ein, Hrows. rewrite Forall_forall in Hms. split.
+    - intros [Hq [_ [Hst Hvs]]]. split; [exact Hq|]. split.
+      + rewrite Forall_forall in Hst |- *. intros c Hc. apply (stored_trans c B T q (Hms c Hc) HB Hq). auto.
+      + rewrite Hvs. apply map_ext_in. intros c Hc. apply (stored_trans c B T q (Hms c Hc) HB Hq).
+    - intros [Hq [Hst Hvs]]. split; [exact Hq|]. split; [eapply bcast_in_range; eauto|]. split.
+      + rewrite Forall_forall in Hst |- *. intros c Hc. apply (stored_trans c B T q (Hms c Hc) HB Hq). auto.
+      + rewrite Hvs. apply map_ext_in. intros c Hc. symmetry. apply (stored_trans c B T q (Hms c Hc) HB Hq).
+  Qed.
+
+  Lemma match_fold_spec T : forall rest ms B rows,
+    rows_spec ms B rows -> Forall (fun c => BT (c_shape c) B) ms -> BT B T ->
+    Forall (canonical V) rest -> Forall (fun c => BT (c_shape c) T) rest ->
+    exists B' rows',
+      fold_left (fun acc a2 => m <- acc ;; match_step V vzero m a2) rest (Ok (B, rows)) = Ok (B', rows') /\
+      rows_spec (ms ++ rest) B' rows' /\ Forall (fun c => BT (c_shape c) B') (ms ++ rest) /\ BT B' T.
+  Proof.
+    induction rest as [|a2 rest IH]; intros ms B rows Hrows Hms HB Hcan HT.
+    - exists B, rows. rewrite app_nil_r. simpl. auto.
+    - inversion Hcan as [|? ? Ha2 Hcan']; subst. inversion HT as [|? ? HT2 HT']; subst.
+      destruct (bc_exists B (c_shape a2) T HB HT2) as [cur [Hb Hcur]].
+      destruct (match_step_spec ms B rows a2 cur Hrows Ha2 Hms Hb) as [rows1 [E1 S1]].
+      pose proof (broadcast_shape2_BT2 _ _ _ Hb) as HB2.
+      cbn [fold_left bind]. rewrite E1.
+      destruct (IH (ms ++ [a2]) cur rows1 S1) as [B' [rows' [E' [S' [F' T']]]]]; auto.
+      + apply Forall_app. split.
+        * eapply Forall_impl; [|exact Hms]. intros c Hc. eapply BT_trans; [exact Hc|]. eapply BT2_left_BT; eauto.
+        * constructor; [|constructor]. eapply BT2_right_BT; eauto.
+      + exists B', rows'. rewrite <- app_assoc in S', F'. simpl in S', F'. auto.
+  Qed.
+
+  Theorem match_coo_spec (ms : list (coo V)) T :
+    ms <> [] -> Forall (canonical V) ms -> Forall (fun c => BT (c_shape c) T) ms -> shape_ok T ->
+    exists rows, match_coo V vzero ms T = Ok rows /\ rows_spec ms T rows.
+  Proof.
+    intros Hne Hcan HT Hok. destruct ms as [|a1 rest]; [congruence|].
+    inversion Hcan as [|? ? Ha1 Hcan']; subst. inversion HT as [|? ? HT1 HT']; subst.
+    destruct (match_fold_spec T rest [a1] (c_shape a1) _ (rows_spec_init a1 Ha1)) as [B' [rows' [E' [S' [F' T']]]]]; auto.
+    { constructor; [apply BT_refl|constructor]. }
+    unfold match_coo. rewrite E'. cbn [bind]. simpl in S', F'.
+    destruct (list_eq_dec Z.eq_dec B' T) as [->|Hne'].
+    - exists rows'. auto.
+    - pose proof (rows_spec_expand (a1 :: rest) B' T rows' S' F' T' Hok) as Hx. unfold expand_rows in Hx.
+      destruct (expand_coords_data (map fst rows') (map snd rows') (bcast_params B' T) T) as [cs vs].
+      eexists. split; [reflexivity|exact Hx].
+  Qed.
+
+  (* _match_coo(func_array, arg, return_midx=True)[0] *)
+  Theorem match_coo_midx_spec sh (coords : list idx) (arg : coo V) :
+    Forall (in_range sh) coords -> canonical V arg -> BT (c_shape arg) sh ->
+    exists l, match_coo_midx V sh coords arg = Ok l /\
+              forall n, In n l <-> (n < length coords)%nat /\ stored arg (nth n coords []).
+  Proof.
+    intros Rc Ha HB. pose proof Ha as [Ra [Sa La]]. pose proof (bc_into _ _ HB) as Hb.
+    destruct (match_pairs_spec sh coords (c_shape arg) (c_coords arg) sh Hb Rc Ra) as [pairs [Hmp [Pnd Pin]]].
+    unfold match_coo_midx. rewrite Hmp. cbn [bind]. eexists. split; [reflexivity|].
+    pose proof (broadcast_shape2_BT2 _ _ _ Hb) as HB2.
+    intros n. rewrite in_map_iff. rewrite Forall_forall in Rc, Ra. unfold idx, stored in *. split.
+    - intros [[n' j] [E Hin]]. simpl in E. subst n'. apply Pin in Hin. destruct Hin as [Hn [Hj Esel]].
+      split; [exact Hn|]. pose proof (Rc _ (nth_In _ [] Hn)) as Rn. pose proof (Ra _ (nth_In _ [] Hj)) as Rj.
+      destruct (pair_align _ _ _ HB2 _ _ Rn Rj) as [_ [_ [_ P]]]. destruct (P Esel) as [q [_ [Q2 [Q3 Q4]]]].
+      rewrite bcast_idx_id in Q3 by exact Q2. subst q. unfold stored. rewrite Q4. apply nth_In. exact Hj.
+    - intros [Hn Hst]. unfold stored in Hst. apply (In_nth _ _ []) in Hst. destruct Hst as [j [Hj Ej]].
+      exists (n, j). split; [reflexivity|]. apply Pin. repeat split; auto.
+      pose proof (Rc _ (nth_In _ [] Hn)) as Rn.
+      destruct (pair_align_inv _ _ _ HB2 _ Rn) as [Esel _]. rewrite bcast_idx_id in Esel by exact Rn.
+      rewrite Ej. exact Esel.
+  Qed.
+End General.
+
+(* ================================================================== one mask of _get_func_coords_data *)
+
+Lemma shape_ok_ext (r : shape) : (forall k, (k < length r)%nat -> 0 <= ext_from_end r k) -> shape_ok r.
+Proof.
+  intros H. unfold shape_ok. rewrite <- (rev_involutive r). apply Forall_rev. apply Forall_forall. intros d Hd.
+  apply (In_nth _ _ 1) in Hd. destruct Hd as [k [Hk <-]]. rewrite rev_length in Hk. apply (H k Hk).
+Qed.
+
+Lemma shape_ok_ext_inv (r : shape) k : shape_ok r -> 0 <= ext_from_end r k.
+Proof.
+  intros H. unfold ext_from_end. destruct (Nat.lt_ge_cases k (length (rev r))) as [Hk|Hk].
+  - assert (Hin : In (nth k (rev r) 1) r) by (apply in_rev, nth_In; exact Hk).
+    unfold shape_ok in H. rewrite Forall_forall in H. apply H. exact Hin.
+  - rewrite nth_overflow by exact Hk. lia.
+Qed.
+
+Lemma rel_shape_ok shapes r : Forall shape_ok shapes -> np_broadcast_rel shapes r -> shape_ok r.
+Proof.
+  intros Hs [L [A B]]. apply shape_ok_ext. intros k Hk. destruct (B k Hk) as [s [Is [_ Es]]]. rewrite <- Es.
+  apply shape_ok_ext_inv. rewrite Forall_forall in Hs. auto.
+Qed.
+
+Lemma compat_incl l l' : compat l -> incl l' l -> compat l'.
+Proof. intros H Hi s1 s2 k I1 I2. apply H; apply Hi; assumption. Qed.
+
+(* a sub-family of broadcastable shapes is broadcastable, into a shape that broadcasts to the full one *)
+Lemma nary_sub shapes sh l :
+  np_broadcast_rel shapes sh -> incl l shapes ->
+  exists m, nary_broadcast_shape l = Ok m /\ np_broadcast_rel l m /\ BT m sh.
+Proof.
+  intros Hrel Hi. pose proof (nary_sound l) as Hs. destruct (nary_broadcast_shape l) as [m|e].
+  - exists m. split; [reflexivity|]. split; [exact Hs|]. destruct Hs as [L [A B]]. destruct Hrel as [L' [A' B']].
+    apply BT_intro.
+    + rewrite L, L'. clear -Hi. induction l as [|s l IH]; simpl; [lia|].
+      assert (length s <= max_ndim shapes)%nat by (apply max_ndim_ge, Hi; simpl; auto).
+      assert (max_ndim l <= max_ndim shapes)%nat by (apply IH; intros x Hx; apply Hi; simpl; auto). lia.
+    + intros k Hk. destruct (B k Hk) as [s [Is [_ Es]]]. rewrite <- Es.
+      destruct (A' s k (Hi s Is)); auto.
+  - exfalso. destruct Hs as [_ Hn]. apply Hn. eapply compat_incl; [eapply rel_compat; exact Hrel|exact Hi].
+Qed.
+
+Lemma BT_shape_ok s T : BT s T -> shape_ok T -> shape_ok s.
+Proof.
+  unfold shape_ok. induction 1 as [|s d cur HB IH|e s d cur Hl He HB IH]; intros Hok; [constructor| |].
+  - inversion Hok; subst. auto.
+  - inversion Hok; subst. constructor; [destruct He; lia|auto].
+Qed.
+
+Section Pieces.
+  Variable V : Type.
+  Variable veqb : V -> V -> bool.
+  Variable vzero : V.
+  Variable f : list V -> V.
+  Hypothesis veqb_eq : forall a b, veqb a b = true <-> a = b.
+
+  Notation stored := (stored V).
+  Notation val_at := (val_at V).
+
+  Definition op_ok (a : operand V) : Prop :=
+    match a with
+    | OSp c => canonical V c /\ shape_ok (c_shape c)
+    | ODn d => shape_ok (d_shape d)
+    end.
+
+  (* NumPy's value of f(operands) at index q of the broadcast shape *)
+  Definition F (args : list (operand V)) (q : idx) : V := f (map (fun a => operand_at V vzero a q) args).
+
+  Definition choices (a : operand V) : list (option bool) :=
+    if is_sparse V a then s_mask_choices_sparse else s_mask_choices_other.
+
+  Lemma masks_cons_In a r m :
+    In m (masks V (a :: r)) <-> exists c m', m = c :: m' /\ In c (choices a) /\ In m' (masks V r).
+  Proof.
+    simpl. fold (choices a). rewrite in_flat_map. split.
+    - intros [c [Hc Hm]]. apply in_map_iff in Hm. destruct Hm as [m' [<- Hm']]. eauto.
+    - intros [c [m' [-> [Hc Hm']]]]. exists c. split; [exact Hc|]. apply in_map. exact Hm'.
+  Qed.
+
+  Lemma sparse_of_cons a ar mi mr w :
+    sparse_of V (a :: ar) (mi :: mr) w =
+    (match a, mi with OSp c, Some b => if Bool.eqb b w then [c] else [] | _, _ => [] end) ++ sparse_of V ar mr w.
+  Proof. unfold sparse_of. simpl. destruct a, mi; reflexivity. Qed.
+
+  (* the values func is applied to under a mask: matched operands their value, unmatched ones their
+     fill value, ndarrays their element *)
+  Fixpoint mvals (args : list (operand V)) (m : list (option bool)) (q : idx) : list V :=
+    match args, m with
+    | a :: ar, mi :: mr =>
+      (match a, mi with
+       | OSp c, Some true => val_at c q
+       | OSp c, _ => c_fill c
+       | ODn d, _ => dense_get vzero d (bcast_idx (d_shape d) q)
+       end) :: mvals ar mr q
+    | _, _ => []
+    end.
+
+  Lemma func_args_mvals args m q :
+    func_args V vzero args m q (map (fun c => val_at c q) (sparse_of V args m true)) = mvals args m q.
+  Proof.
+    revert m. induction args as [|a ar IH]; intros [|mi mr]; try reflexivity.
+    rewrite sparse_of_cons. destruct a as [c|d]; [destruct mi as [[|]|]|]; simpl; rewrite IH; reflexivity.
+  Qed.
+
+  Definition aligned (mbs : shape) (a : operand V) (mi : option bool) : Prop :=
+    match a, mi with
+    | OSp c, Some true => BT (c_shape c) mbs
+    | ODn d, _ => BT (d_shape d) mbs
+    | _, _ => True
+    end.
+
+  Lemma mvals_bcast args m mbs sh q :
+    (forall a mi, In (a, mi) (combine args m) -> aligned mbs a mi) -> BT mbs sh -> in_range sh q ->
+    mvals args m (bcast_idx mbs q) = mvals args m q.
+  Proof.
+    intros Hal HB Hq. revert m Hal. induction args as [|a ar IH]; intros [|mi mr] Hal; simpl; try reflexivity.
+    f_equal; [|apply IH; intros; apply Hal; simpl; auto].
+    specialize (Hal a mi (or_introl eq_refl)). unfold aligned in Hal.
+    destruct a as [c|d]; [destruct mi as [[|]|]|]; try reflexivity.
+    - apply (stored_trans V c mbs sh q Hal HB Hq).
+    - rewrite (bcast_idx_trans _ _ _ Hal HB q Hq). reflexivity.
+  Qed.
+
+  Lemma mvals_F args m q :
+    In m (masks V args) -> (forall c, In c (sparse_of V args m false) -> ~ stored c q) ->
+    mvals args m q = map (fun a => operand_at V vzero a q) args.
+  Proof.
+    revert m. induction args as [|a ar IH]; intros m Hm Hun.
+    - simpl in Hm. destruct Hm as [<-|[]]. reflexivity.
+    - apply masks_cons_In in Hm. destruct Hm as [c [m' [-> [Hc Hm']]]]. simpl.
+      rewrite sparse_of_cons in Hun. f_equal.
+      + unfold choices in Hc. destruct a as [co|d]; simpl in Hc.
+        * destruct Hc as [<-|[<-|[]]]; [reflexivity|]. simpl in Hun. symmetry. apply den_unstored.
+          apply (Hun co). left. reflexivity.
+        * reflexivity.
+      + apply IH; [exact Hm'|]. intros c0 Hc0. apply Hun. apply in_or_app. right. exact Hc0.
+  Qed.
+
+  (* filter_pos against the positions matched by the unmatched operands *)
+  Lemma drop_unmatched_spec sh (es : list (idx * V)) (unm : list (coo V)) :
+    Forall (fun e => in_range sh (fst e)) es ->
+    Forall (fun c => canonical V c /\ BT (c_shape c) sh) unm ->
+    exists bad, mapM (fun arg => match_coo_midx V sh (map fst es) arg) unm = Ok bad /\
+      forall q v, In (q, v) (filter_pos (fun n => negb (existsb (Nat.eqb n) (concat bad))) O es) <->
+                  In (q, v) es /\ forall c, In c unm -> ~ stored c q.
+  Proof.
+    intros Hr Hun.
+    assert (Rc : Forall (in_range sh) (map fst es)).
+    { apply Forall_forall. intros q Hq. apply in_map_iff in Hq. destruct Hq as [e [<- He]].
+      rewrite Forall_forall in Hr. auto. }
+    rewrite Forall_forall in Hun.
+    rewrite (mapM_Ok _ []).
+    2:{ intros c Hc. destruct (Hun c Hc) as [H1 H2]. destruct (match_coo_midx_spec V sh (map fst es) c Rc H1 H2) as [l [E _]].
+        eauto. }
+    eexists. split; [reflexivity|].
+    assert (Hbad : forall n, In n (concat (map (fun x => match match_coo_midx V sh (map fst es) x with
+                                                          | Ok y => y | Raise _ => [] end) unm)) <->
+                             (n < length es)%nat /\ exists c, In c unm /\ stored c (nth n (map fst es) [])).
+    { intros n. rewrite in_concat. split.
+      - intros [l [Hl Hn]]. apply in_map_iff in Hl. destruct Hl as [c [<- Hc]].
+        destruct (Hun c Hc) as [H1 H2]. destruct (match_coo_midx_spec V sh (map fst es) c Rc H1 H2) as [l [E Hl]].
+        rewrite E in Hn. apply Hl in Hn. rewrite map_length in Hn. destruct Hn. eauto.
+      - intros [Hn [c [Hc Hs]]]. destruct (Hun c Hc) as [H1 H2].
+        destruct (match_coo_midx_spec V sh (map fst es) c Rc H1 H2) as [l [E Hl]].
+        exists l. split; [apply in_map_iff; exists c; rewrite E; auto|]. apply Hl. rewrite map_length. auto. }
+    intros q v. rewrite filter_pos_In. simpl. split.
+    - intros [n [Hn Hk]]. split; [eapply nth_error_In; eauto|]. intros c Hc Hs.
+      apply negb_true_iff in Hk. assert (Hn' : (n < length es)%nat) by (apply nth_error_Some; congruence).
+      assert (Hin : In n (concat (map (fun x => match match_coo_midx V sh (map fst es) x with
+                                                 | Ok y => y | Raise _ => [] end) unm))).
+      { apply Hbad. split; [exact Hn'|]. exists c. split; [exact Hc|].
+        change (@nil Z) with (fst (@nil Z, v)). rewrite map_nth.
+        apply nth_error_nth with (d := ([], v)) in Hn. rewrite Hn. exact Hs. }
+      assert (existsb (Nat.eqb n) (concat (map (fun x => match match_coo_midx V sh (map fst es) x with
+                                                 | Ok y => y | Raise _ => [] end) unm)) = true); [|congruence].
+      apply existsb_exists. exists n. split; [exact Hin|apply Nat.eqb_refl].
+    - intros [Hin Hno]. apply In_nth_error in Hin. destruct Hin as [n Hn]. exists n. split; [exact Hn|].
+      apply negb_true_iff. apply not_true_is_false. intros Hex. apply existsb_exists in Hex.
+      destruct Hex as [n' [Hin' En]]. apply Nat.eqb_eq in En. subst n'. apply Hbad in Hin'.
+      destruct Hin' as [_ [c [Hc Hs]]]. apply (Hno c Hc).
+      change (@nil Z) with (fst (@nil Z, v)) in Hs. rewrite map_nth in Hs.
+      apply nth_error_nth with (d := ([], v)) in Hn. rewrite Hn in Hs. exact Hs.
+  Qed.
+End Pieces.
